@@ -40,8 +40,10 @@ ASSUMPTIONS = [
     "idc_star's answer can depend on PYTHONHASHSEED (corpus/C08/hash_order_dependent.json: the keys taken from a Python set "
     "in get_new_outcomes_and_conditions decide which condition is exchanged first); the model takes that order as the "
     "parameter kordf, the harness drives the real code through both orders and judges every distinct answer",
-    "termination of the model is by fuel (2(|outcomes|+|conditions|) + |V| + 4), checked on every generated input, proved only "
-    "in part; the division `e / d` is modelled for the operands IDC* can produce (an ID* estimand is never a Fraction)",
+    "termination of the model is by fuel (2(|outcomes|+|conditions|) + |V| + 4): the inner ID* calls terminate by theorem "
+    "(C07 idstar_never_out_of_fuel); for IDC*'s own line-4 recursion no decreasing measure is proved (|conditions| and the "
+    "number of keys do NOT always decrease, see Props/C08.lean), it is checked on every generated input (an exhausted fuel would "
+    "be a correspondence disagreement; 50 000 extra random inputs: depth <= |conditions| + 1); the division `e / d` is modelled for the operands IDC* can produce (an ID* estimand is never a Fraction)",
     "pairs in which the same counterfactual variable V_S occurs both as an outcome and as a condition are left out of the "
     "checked domain (idc_star merges the two dicts, the condition's value silently wins)",
     "a wrong value / wrong Zero is classified by the FIRST step of IDC*'s own chain of claims that an independent exact "
